@@ -1,1 +1,84 @@
-fn main() { println!("syltmc"); }
+mod engines;
+mod harness;
+mod pool;
+mod report;
+mod util;
+
+use report::Run;
+
+fn usage() -> ! {
+    eprintln!("usage: syltmc <C01..C20> [--tier quick|thorough] | syltmc replay <dir>");
+    std::process::exit(2)
+}
+
+fn main() {
+    std::env::set_var("NO_COLOR", "1");
+    harness::install_quiet_panic_hook();
+    let args: Vec<String> = std::env::args().skip(1).collect();
+    if args.is_empty() {
+        usage();
+    }
+    if args[0] == "replay" {
+        let dir = args.get(1).unwrap_or_else(|| usage());
+        std::process::exit(replay(dir));
+    }
+    let prop = args[0].clone();
+    let mut tier = std::env::var("VERIF_TIER").unwrap_or_else(|_| "quick".to_string());
+    let mut i = 1;
+    while i < args.len() {
+        if args[i] == "--tier" && i + 1 < args.len() {
+            tier = args[i + 1].clone();
+            i += 1;
+        } else if args[i] == "quick" || args[i] == "thorough" {
+            tier = args[i].clone();
+        }
+        i += 1;
+    }
+    let code = pool::on_fresh_thread(1, move || {
+        let mut run;
+        match prop.as_str() {
+            "C17" => {
+                run = Run::new("C17", &tier, "model_checking");
+                engines::c17::run(&mut run);
+            }
+            _ => {
+                eprintln!("MACHINERY: no engine for {}", prop);
+                return 2;
+            }
+        }
+        report::finish(run)
+    });
+    std::process::exit(code);
+}
+
+fn replay(dir: &str) -> i32 {
+    let p = std::path::Path::new(dir).join("case.json");
+    let text = match std::fs::read_to_string(&p) {
+        Ok(t) => t,
+        Err(e) => {
+            eprintln!("MACHINERY: cannot read {}: {}", p.display(), e);
+            return 2;
+        }
+    };
+    let doc: serde_json::Value = serde_json::from_str(&text).expect("case.json");
+    let case = &doc["case"];
+    let prop = doc["property"].as_str().unwrap_or("?").to_string();
+    let res = pool::on_fresh_thread(1, || match case["engine"].as_str().unwrap_or("") {
+        "c17" => engines::c17::replay(case),
+        other => {
+            eprintln!("MACHINERY: unknown engine {}", other);
+            std::process::exit(2);
+        }
+    });
+    match res {
+        Some((sig, detail)) => {
+            println!("{}", detail);
+            println!("VIOLATION property={} replay={} sig={}", prop, dir, sig);
+            1
+        }
+        None => {
+            println!("replay: property {} holds on this case", prop);
+            0
+        }
+    }
+}
